@@ -121,6 +121,19 @@ JConcat(e) ==
     \cup Chk(e.oab = "ok" => \A v \in Probes(Ends(e.A) \cup Ends(e.B) \cup Ends(e.AB)) :
                                  RSat(e.AB, v) => (RInB(e.A, v) /\ RInB(e.B, v)), "C02:and-widens")
 
+\* ------------------------------------------------------------------ C15
+\* an identity of the set algebra that the session's registers must honour (Nil admits nothing)
+JIdent(L, R, e) ==
+  LET P == Probes(Ends(L) \cup Ends(R))
+      O == e.obs IN
+       Chk(e.lnil = (L = Nil) /\ e.rnil = (R = Nil), "TOOL:register-tracking")
+  \cup (IF e.kind = "eq" THEN
+            Chk(\A v \in P : RInB(L, v) <=> RInB(R, v), "C15:identity")
+       \cup Chk(\A k \in Idx(O) : ~IsPre(O[k].v) => (O[k].l = O[k].r), "C15:identity-obs")
+        ELSE
+            Chk(\A v \in P : ~RInB(L, v), "C15:must-be-empty")
+       \cup Chk(\A k \in Idx(O) : ~O[k].l, "C15:must-be-empty-obs"))
+
 \* ------------------------------------------------------------------ C13
 Quote(t) == <<34>> \o t \o <<34>>
 HasAnyShape(A) == \E i \in Idx(A) : A[i] = AnyIv
@@ -157,7 +170,8 @@ JPrint(A, origin, e) ==
   \* the `*` shape (both sides unbounded) only comes from Range::any(), outside the quantifier of C13
   IF HasAnyShape(A) THEN {}
   ELSE LET plain == JPrintPlain(A, origin, e) IN
-       IF plain = {} \/ ~HasOver(A) THEN plain
+       IF plain = {} THEN {}
+       ELSE IF ~HasOver(A) THEN plain \cup (IF origin = "op" THEN {"C15:result-not-reusable"} ELSE {})
        ELSE LET d == DevReparse(A)
                 explained == IF d = <<>> THEN e.out = "err"
                              ELSE e.out = "ok" /\ Len(e.val) = Len(d)
@@ -227,8 +241,17 @@ PanicTag(call) ==
     [] call = "from_tuple"     -> {"C18:panicked"}
     [] call \in {"cmp", "sort"} -> {"C04:panicked"}
     [] call \in {"to_string", "reprint"} -> {"C13:panicked"}
+    [] call = "location" -> {"C17:panicked"}
     [] call = "version_roundtrip" -> {"C12:panicked"}
     [] OTHER -> {}
+
+\* time: within budget (50 ms + 100 us per byte), and roughly linear: once a run takes 5 ms, 8 times the
+\* input may take at most 30 times as long
+JTiming(e) ==
+       Chk(\A i \in Idx(e.n) : e.us[i] <= 50000 + 100 * e.n[i], "C06:time-budget")
+  \cup Chk(\A i \in Idx(e.n) : \A j \in Idx(e.n) :
+             (e.n[j] >= 7 * e.n[i] /\ e.n[j] <= 9 * e.n[i] /\ e.us[i] >= 5000) => e.us[j] <= 30 * e.us[i], "C06:superlinear")
+JSoup(e) == Chk(e.us <= 2000000 + 2000 * e.len, "C06:time-budget")
 
 \* ------------------------------------------------------------------ register file
 RegStep(rr, e) ==
@@ -238,6 +261,8 @@ RegStep(rr, e) ==
     [] e.ev = "rparse" -> [rr EXCEPT ![e.dst] = IF e.out = "ok" THEN e.val ELSE Nil]
     [] e.ev \in {"isect", "diff"} -> [rr EXCEPT ![e.dst] = IF e.some THEN e.val ELSE Nil]
     [] e.ev = "print"  -> [rr EXCEPT ![e.dst] = IF e.out = "ok" THEN e.val ELSE Nil]
+    [] e.ev = "copy"   -> [rr EXCEPT ![e.dst] = rr[e.a]]      \* client-side: X minus None is X
+    [] e.ev = "setnil" -> [rr EXCEPT ![e.dst] = Nil]           \* client-side: anything with None is None
     [] OTHER -> rr
 StepOrg(org, e) ==
   CASE e.ev = "reset"  -> InitOrg
@@ -246,11 +271,13 @@ StepOrg(org, e) ==
     [] e.ev = "rparse" -> [org EXCEPT ![e.dst] = "parse"]
     [] e.ev \in {"isect", "diff"} -> [org EXCEPT ![e.dst] = "op"]
     [] e.ev = "print"  -> [org EXCEPT ![e.dst] = "parse"]
+    [] e.ev = "copy"   -> [org EXCEPT ![e.dst] = org[e.a]]
+    [] e.ev = "setnil" -> [org EXCEPT ![e.dst] = "none"]
     [] OTHER -> org
 
 Judge(rr, org, e) ==
   CASE e.ev = "reset"  -> {}
-    [] e.ev = "skip"   -> {}
+    [] e.ev \in {"skip", "copy", "setnil"} -> {}
     [] e.ev = "panic"  -> {"C06:panic"} \cup PanicTag(e.call)
     [] e.ev = "rload"  -> Chk(~e.ok \/ e.val = e.want, "TOOL:hook-roundtrip") \cup Chk(e.ok \/ ~ValidRange(e.want), "SKIP:hook-rejected-valid-interval")
     [] e.ev = "rany"   -> Chk(e.val = <<AnyIv>>, "X:any")
@@ -264,6 +291,9 @@ Judge(rr, org, e) ==
     [] e.ev = "maxsat" -> JMaxSat(rr[e.a], e)
     [] e.ev = "rparse" -> JRParse(e)
     [] e.ev = "concat" -> JConcat(e)
+    [] e.ev = "soup"   -> JSoup(e)
+    [] e.ev = "timing" -> JTiming(e)
+    [] e.ev = "ident"  -> JIdent(rr[e.l], rr[e.r], e)
     [] e.ev = "vparse" -> JVParse(e)
     [] e.ev = "vcmp"   -> JVCmp(e)
     [] e.ev = "vsort"  -> JVSort(e)
